@@ -1949,7 +1949,7 @@ def tag_fn(ctx: "Wtp", token: str) -> None:
     # Try to parse it as a start tag
     m = re.match(
         r"""<([-a-zA-Z0-9]+)\s*((\b[-a-zA-Z0-9:]+(\s*=\s*("[^"]*"|"""
-        r"""'[^']*'|[^ \t\n"'`=<>]*))?\s*)*)/?>""",
+        r"""'[^']*'|[^ \t\n"'`=<>]+))?\s*)*(\b[-a-zA-Z0-9:]+\s*=\s*)?)/?>""",
         token,
     )
     if m is not None:
@@ -2164,8 +2164,13 @@ token_list: list[str] = [
     r"[ \t]+\n*",
     r":",  # sometimes special when not beginning of line
     r"<<[-a-zA-Z0-9/]*>>",
-    r"""<[-a-zA-Z0-9]+\s*(\b[-a-zA-Z0-9:]+(\s*=\s*("[^<>"]*"|"""  # HTML start
-    r"""'[^<>']*'|[^ \t\n"'`=<>]*))?\s*)*/?>""",  # HTML start tag
+    # HTML start tag.  An unquoted attribute value is not empty (an empty one
+    # is accepted only for the last attribute): "a=a" must not also parse as
+    # an empty value followed by the attribute "a", or matching an unclosed
+    # tag with n attributes tries 2**n splits.
+    r"""<[-a-zA-Z0-9]+\s*(\b[-a-zA-Z0-9:]+(\s*=\s*("[^<>"]*"|"""
+    r"""'[^<>']*'|[^ \t\n"'`=<>]+))?\s*)*"""
+    r"""(\b[-a-zA-Z0-9:]+\s*=\s*)?/?>""",
     r"</[-a-zA-Z0-9]+\s*>",
     r"(" + r"|".join(r"\b{}\b".format(x) for x in MAGIC_WORDS) + r")",
     r"[{:c}-{:c}]".format(MAGIC_FIRST, MAGIC_LAST),
